@@ -188,3 +188,15 @@ Proof.
 Qed.
 End X.
 Print Assumptions C04_exact_small_solution_solves_the_system.
+
+From QVT Require Import SquareIso ArnoldiFinite.
+(* finite termination: at a lucky breakdown (at the latest when the basis has N vectors) the small square system has a solution and x0 + V_m y solves
+   A x = b exactly -- "x solves the system after at most n cycles, also when the Krylov space becomes invariant early" in exact arithmetic *)
+Theorem C04_breakdown_reaches_the_exact_solution N m (A V H Ainv b x0 e1b : qmat RR) :
+  (forall j l, j < m -> l < N -> qmul (V l (S j)) (H (S j) j) = qsub (qmm N A V l j) (sumQ (S j) (fun i => qmul (V l i) (H i j)))) ->
+  (forall i j, j < m -> S j < i -> H i j = qzero) -> (forall j, j < m -> H m j = qzero) ->
+  meq m m (qmm N (qherm V) V) qmid -> meq N N (qmm N Ainv A) qmid ->
+  meq N 1 (qmsub b (qmm N A x0)) (qmm (S m) V e1b) -> e1b m 0 = qzero ->
+  exists y : qmat RR, meq N 1 (qmm N A (qmadd x0 (qmm m V y))) b.
+Proof. exact (breakdown_reaches_the_exact_solution N m A V H Ainv b x0 e1b). Qed.
+Print Assumptions C04_breakdown_reaches_the_exact_solution.
